@@ -159,4 +159,19 @@ def direction (likely : Bool) (find : Find) (L : Layout) (l : Language) (s r : O
     else .rtl
   else .ltr
 
+/-- The two unconditional clauses of C14 as one function (the oracle of the check): a listed script
+    decides on its own; no listed script and a language that is not RTL-listed is left-to-right;
+    anything else (an RTL-listed language without a listed script) is left open (`none`). -/
+def directionClause (L : Layout) (l : Language) (s : Option Bytes) : Option LangId.Dir :=
+  let S := packOpt s
+  if s.isSome && L.ltr.contains S then some .ltr
+  else if s.isSome && L.rtl.contains S then some .rtl
+  else if s.isSome && L.ttb.contains S then some .ttb
+  else if l.isSome && L.rtlLangs.contains (packOpt l) then none
+  else some .ltr
+
+/-- the layout the CLDR layout files determine (`generate_layout.rs`) -/
+def derivedLayout (ls : List LEntry) : Layout :=
+  ⟨deriveScripts ls 0, deriveScripts ls 1, deriveScripts ls 2, deriveRtlLangs ls⟩
+
 end UL.Spec
